@@ -109,7 +109,8 @@ def gen_filter(rng, partitioned, nrows):
     return [['f', '>', 0.0], ['uid', '>=', rng.randrange(0, max(2, nrows))]]
 
 
-def gen_op(rng, cfg, nrg, nrows, partitioned, v2=False, extras=()):
+def gen_op(rng, cfg, nrg, nrows, partitioned, v2=False, extras=(),
+           theme=None):
     kinds = ['read', 'read', 'cols', 'filt', 'filt', 'cats', 'stats', 'spc',
              'pickle', 'attrs', 'count', 'text']
     if not v2:
@@ -119,6 +120,8 @@ def gen_op(rng, cfg, nrg, nrows, partitioned, v2=False, extras=()):
     if cfg == 'B':
         kinds += ['slice', 'slice', 'item', 'iter', 'head']
     k = rng.choice(kinds)
+    if theme in kinds and rng.random() < 0.8:
+        k = theme
     op = {'op': k}
     if k == 'cols':
         cols = list(DATA_COLS) + list(extras)
@@ -174,9 +177,16 @@ def generate(seed, idx, tier):
     nthreads = rng.choice((2, 2, 3, 3, 4, 4, 4, 6, 8, 16))
     threads = []
     if mode == 'read':
+        # a quarter of the runs are "themed": the threads mostly issue the
+        # same kind of operation with their own arguments (what a task
+        # scheduler does: the same function over many pieces)
+        theme = rng.choice(('rowfilt', 'filt', 'count', 'iter', 'slice',
+                            'head', 'stats', 'cats', 'pickle', 'text')) \
+            if rng.random() < 0.25 else None
         for _ in range(nthreads):
             ops = [gen_op(rng, cfg, nrg, nrows, layout.startswith('hivep'),
-                          knobs['v2'] or knobs['page'] is not None, extras)
+                          knobs['v2'] or knobs['page'] not in (None, 4096),
+                          extras, theme)
                    for _ in range(rng.choice((1, 1, 2, 3)))]
             if rng.random() < 0.3:
                 # the same call again (a memoised answer, if any, is used)
